@@ -244,7 +244,11 @@ def gen_member(g, host_env, idx, feats):
             feats.add('member:assoc')
             body.append(a)
     name = f'inner{idx}'
-    return routine(name, [nm], decls, body), {'name': name, 'args': [(t, None, 'inout', nm)]}
+    r = routine(name, [nm], decls, body)
+    if g.chance(40):
+        r['doc_raw'] = [f'      ! {name}: docstring of a member']
+        feats.add('member:docstring')
+    return r, {'name': name, 'args': [(t, None, 'inout', nm)]}
 
 
 def gen_kernel(g, name, mod_env, feats, dtypes, nmembers, calls_tbp=False, with_assoc=True, as_function=False):
@@ -272,6 +276,16 @@ def gen_kernel(g, name, mod_env, feats, dtypes, nmembers, calls_tbp=False, with_
         objs.append(nm)
         feats.add(f'object:{tn}')
     B.declare_locals(g, env, decls, prologue, nscal=(1, 2), narr=(1, 2))
+    if 'mp' in env.vars:
+        # kmod scope: the kind parameter jpr and the parameters mp / mq are visible
+        for d_ in decls:
+            if d_['type'] == 'real' and g.chance(40):
+                d_['type'] = 'raw:real(kind=jpr)'
+                feats.add('decl:named-kind')
+        if g.chance(50):
+            decls.insert(len(args), decl('lp', 'int', param=['b', '*', var('mp'), ['i', 2]]))
+            env.vars['lp'] = {'type': 'int', 'dims': None, 'ro': True}
+            feats.add('decl:parameter-with-symbolic-initialiser')
     members, msigs = [], []
     for k in range(nmembers):
         m, s = gen_member(g, env, k, feats)
@@ -306,8 +320,14 @@ def gen_kernel(g, name, mod_env, feats, dtypes, nmembers, calls_tbp=False, with_
         decls.append(decl(rname, rt))
         body.append(['assign', var(rname), B.expr_of(g, env, rt, 2)])
         r = routine(name, args, decls, body, kind='function', result=res, contains=members)
+        if g.chance(50):
+            r['doc_raw'] = [f'    ! {name}: docstring of a function']
+            feats.add('routine:docstring')
         return r, {'name': name, 'args': [s[0] for s in sig], 'rtype': rt}
     r = routine(name, args, decls, body, contains=members)
+    if g.chance(50):
+        r['doc_raw'] = [f'    ! {name}: generated docstring', '    ! second line of the docstring']
+        feats.add('routine:docstring')
     full = [('int', None, 'in', 'n')] + sig + [('real', [[1, 'n']], 'inout', 'za')]
     return r, {'name': name, 'args': full, 'objs': [a for a in args if a.startswith('ob')]}
 
@@ -392,7 +412,7 @@ def projects(draw, thorough=False, kind=None, flags=None):
                   decls=[decl('gscale', 'real', init=['r', '1.5']), decl('gcount', 'int'),
                          decl('garr', 'int', dims=[[1, 'kp']])],
                   types=[typedef('tin', tin_procs), typedef('tout')])
-    tmod['spec_raw_pre'] = [f'  integer, parameter :: kp = {KP}']
+    tmod['spec_raw_pre'] = [f'  integer, parameter :: kp = {KP}', '  integer, parameter :: jpr = 8']
     files = [{'name': 'tmod.f90', 'units': [['module', tmod]]}]
 
     # ---------------- kmod: imports, own type, module variables, kernel(s)
@@ -403,7 +423,7 @@ def projects(draw, thorough=False, kind=None, flags=None):
         uses = [{'module': 'tmod', 'only': None}]
         feats.add('import:whole-module')
     else:
-        only = [['tin', None], ['tout', None], ['kp', None], [gs_name, 'gscale' if rename else None], ['gcount', None]]
+        only = [['tin', None], ['tout', None], ['kp', None], [gs_name, 'gscale' if rename else None], ['gcount', None], ['jpr', None]]
         only += [[s['name'], None] for s in t_subs] + [[f['name'], None] for f in t_funcs]
         uses = [{'module': 'tmod', 'only': only}]
         feats.add('import:only-renamed' if rename else 'import:only')
@@ -417,6 +437,7 @@ def projects(draw, thorough=False, kind=None, flags=None):
         'kp': {'type': 'int', 'dims': None, 'ro': True}, 'mp': {'type': 'int', 'dims': None, 'ro': True},
         gs_name: {'type': 'real', 'dims': None, 'ro': True}, 'gcount': {'type': 'int', 'dims': None},
         'mv': {'type': 'int', 'dims': None}, 'mr': {'type': 'real', 'dims': [[1, MP]]},
+        'mx': {'type': 'int', 'dims': [[1, MP + 1]]}, 'mq': {'type': 'int', 'dims': None, 'ro': True},
     }
     if whole:
         menv.vars['garr'] = {'type': 'int', 'dims': [[1, KP]]}
@@ -425,7 +446,7 @@ def projects(draw, thorough=False, kind=None, flags=None):
     menv.funcs = list(t_funcs)
     menv.subs = list(t_subs)
     own_type = g.chance(70)
-    mdecls = [decl('mv', 'int'), decl('mr', 'real', dims=[[1, 'mp']])]
+    mdecls = [decl('mv', 'int'), decl('mr', 'real', dims=[[1, 'mp']]), decl('mx', 'int', dims=[[1, 'mq']])]
     mtypes = []
     if own_type:
         mtypes.append(typedef('tloc'))
@@ -463,9 +484,9 @@ def projects(draw, thorough=False, kind=None, flags=None):
     k_routines.append(kern)
     kmod = module('kmod', routines=k_routines, decls=mdecls, types=mtypes, uses=uses,
                   access=g.pick([None, None, 'private', 'public']))
-    kmod['spec_raw_pre'] = [f'  integer, parameter :: mp = {MP}']
+    kmod['spec_raw_pre'] = [f'  integer, parameter :: mp = {MP}', '  integer, parameter :: mq = mp + 1']
     if kmod['access'] == 'private':
-        kmod['spec_raw_pre'].insert(0, '  public :: kernel, mv' + (', tloc' if own_type else ''))
+        kmod['spec_raw_pre'].insert(0, '  public :: kernel, mv, mp, mq' + (', tloc' if own_type else ''))
     kunits = [['module', kmod]]
 
     # ---------------- a free subroutine importing from kmod (same file or its own file)
@@ -534,6 +555,9 @@ def projects(draw, thorough=False, kind=None, flags=None):
             final_uses.append(u_)
         duses = final_uses
         drv = routine('drv', dargs, ddecls, dbody, uses=duses)
+        if g.chance(50):
+            drv['doc_raw'] = ['  ! drv: docstring of the free routine', '  ! (two lines)']
+            feats.add('free:docstring')
         if free_own_file:
             feats.add('free:own-file')
         else:
